@@ -69,8 +69,26 @@ def _wire_then_gate(rng):
             "gate_lo": True, "wire_lo": True, "width": 2, "exact": False}
 
 
+def _family_every_gate():
+    """every registered two-qubit gate name once as the only gate, one qubit per subcircuit, gate cuts only: the reported minimum must be that gate's own
+    overhead; and as the dearer / cheaper alternative next to a cx + cs pair across the same boundary (the search has to compare the two)"""
+    from .. import gen as _gen
+    import math
+    out = []
+    for k, fam in enumerate(_gen.FIXED_2Q + _gen.PARAM_2Q):
+        g = {"name": fam, "qubits": [0, 1]}
+        if fam in _gen.PARAM_2Q:
+            g["params"] = [0.7]
+        base = {"seed": 5 + k, "max_gamma": 1e6, "max_backjumps": None, "gate_lo": True, "wire_lo": False, "exact": False, "always_oracle": True}
+        out.append(dict(base, nq=2, instrs=[g], width=1))
+        out.append(dict(base, nq=3, instrs=[g, {"name": "cx", "qubits": [1, 2]}, {"name": "cs", "qubits": [1, 2]}], width=2))
+    return out
+
+
 def cases(rng, tier):
     N = 120 if tier == "quick" else 1500
+    for p in _family_every_gate():
+        yield ("find_cuts", p)
     # deterministic families (independent of the seed, oracle always run): unrestricted searches whose greedy warm start contains wire cuts while
     # the optimum lies between that answer's entangled-pair (LOCC) cost and its LO cost; circuits on several quantum registers
     for p in cutfind.family_bound_gap() + cutfind.family_registers():
